@@ -79,6 +79,7 @@ func mNewbrd(
 	// mkdir
 	dirname := path.SetBPath(brdname)
 	err = types.Mkdir(dirname)
+	isNewDir := err == nil
 	if os.IsExist(err) && isRecover {
 		err = nil
 	}
@@ -131,6 +132,10 @@ func mNewbrd(
 
 	bid, err = addBoardRecord(board)
 	if err != nil {
+		// a refused creation (e.g. no capacity) must not leave the directory behind.
+		if isNewDir {
+			_ = os.Remove(dirname)
+		}
 		return nil, 0, err
 	}
 
